@@ -511,7 +511,9 @@ def _check(config, inj, labels, tmp):
       _, wspans = tree.render_file(wi)
       entries = re.findall(r'In (file "([^"]*)",|bindings string) line (\d+)', str(raised))
       got_chain = [((e[1] or None), int(e[2])) for e in entries]
-      require((tree.names[wi], wspans[wk][0]) in got_chain, 'locked-error-location',
+      # (for a block the refused binding is its first member, on the member's own line)
+      lines_ok = [wspans[wk][0]] + list(wspans[wk][2] or [])[:1]
+      require(any((tree.names[wi], ln) in got_chain for ln in lines_ok), 'locked-error-location',
               lambda: f'expected {tree.names[wi] or "bindings string"} line {wspans[wk][0]}; '
                       f'message entries {got_chain}\n{raised}')
     return ok(labels, True)
